@@ -90,7 +90,8 @@ PROP = dict(
          "holds no weight: unused id below the maximum or only zero-weight vertices) and `beyondtol_*` (input already beyond "
          "the tolerance: heaviest part above (1+x)*ideal, Some(x) incl. Some(0.0)); `budgetsum_*` (one random case in ten): 5/7/8/10/11 vertices on 2..4 workers with a shorter last chunk, one positive-gain "
          "mover per chunk into the same part, each weighing in (headroom/tc, headroom*ipt/len], cap set by None or Some(x) -- the "
-         "SUM of the per-thread budgets decides; one random case in ten runs with f64 vertex "
+         "SUM of the per-thread budgets decides; one random case in ten (`f64x_*`) runs with f64 weights whose sums are exact (integers x 1, 1/2, 1/4, 1/8) "
+         "and is replayed through the f64 instance of the machine; one random case in ten runs with f64 vertex "
          "weights (fractions of the integer ones): no replay, only the weight-independent clauses are checked on its output; distinct = distinct (graph, weights, "
          "partition, pool, cap, recorded schedule); non-trivial = at least two workers and at least one vertex moved",
     class_names={0: "Ok, no move", 1: "Ok, moved", 2: "panic", 3: "hang", 4: "outside the contract", 5: "error",
@@ -113,7 +114,11 @@ PROP = dict(
         "the hardware memory model (acquire/release lock, relaxed part ids) is not covered",
         "i64 vertex weights >= 0 and i64 edge weights whose sums do not overflow; for |cap| + total vertex weight < 2^53 the f64 share "
         "of the code is PROVED to be the exact quotient and the f64 machine to run exactly like the exact one (C05_f64_share_irrelevant); "
-        "the runs still use headroom_checked as a cross-check; f64 vertex weights are not covered",
+        "the runs still use headroom_checked as a cross-check; above 2^53 the strict caps clause is REFUTED (model witness + the "
+        "implementation, known-finding class arcswap-share-rounding-above-2p53) and holds up to cap + |cap|/2^51 (proved)",
+        "f64 vertex weights: mutual exclusion, accounting, ids, move_count, no panic, termination are proved for every f64 weight "
+        "vector (instance wops_f64); the strict caps clause is REFUTED at magnitude 2^52 (model witness + the implementation) and has "
+        "no theorem; model = code for f64 weights is replay on exact-sum weights (integers x 2^-k) only",
         "symmetric adjacency (as sets of neighbours and as summed weights), neighbour ids < n",
         "the cap is trunc(ideal + max_imbalance * ideal) as computed in f64 by the code (cap_of); its relation to the real number is not proved",
     ],
@@ -131,10 +136,14 @@ MANIFEST = dict(
          "exact quotient below 2^53, so the caps theorem needs no premise on the share), C05_arcswap_safe / C05_replayed_run_safe (arc_swap's own "
          "configuration; an accepted trace is a schedule). The Rust code is tied to the machine by a translator (statement order and "
          "literals of make_move re-read on every run) and by replaying, event by event, the traces of 1.5k/10k runs under a "
-         "controlled scheduler (systematic preemption sweeps + random/adversarial policies); a certified checker judges each output.",
+         "controlled scheduler (systematic preemption sweeps + random/adversarial policies); a certified checker judges each output. "
+         "The machine is generic in the weight arithmetic: the same theorems except the caps hold for f64 vertex weights "
+         "(C05_arcswap_f64w_safe / _runs, replay of exact-sum f64 runs through the f64 instance); for all i64 values the caps hold up "
+         "to the f64 rounding slack (C05_arcswap_caps_f64_i64) and the strict clause is refuted above 2^53 (i64) and at 2^52 (f64 weights), "
+         "both confirmed on the implementation.",
     design_ref="DESIGN.md §7 C05; docs/C05.md",
     note="Proof level holds for the model under sequentially consistent interleavings; model<->code is correspondence on explored "
-         "schedules + translator. Not covered: hardware memory model, f64 weights, weights above 2^53. Known finding "
+         "schedules + translator. Not covered: hardware memory model. Refuted and reported: strict caps above 2^53 (i64) and at 2^52 (f64 weights). Known finding "
          "(reported): unsigned weight types underflow `max_part_weight - pw` (debug panic / release: cap not enforced), stream "
          "gated on known_findings.json class arcswap-unsigned-weights.",
     technique="Coq proof (inductive invariants over schedules) + translator + controlled-scheduler trace replay + certified checker",
